@@ -41,7 +41,7 @@ CXX="g++ -std=c++17 -fcx-limited-range $HF -I$REPO/SRC -I$HERE"
   for p in s d c z; do echo "$CXX -DPREC_$p -c $HERE/drv_impl.cc -o $BD/h/drv_$p.o"; done
   for f in sim oracle gen runner monitor minimise simfact ienv; do echo "$CXX -c $HERE/$f.cc -o $BD/h/$f.o"; done
 ) | xargs -P 16 -I{} sh -c "{}" >&2
-WRAPS="-Wl,--wrap=pthread_create,--wrap=pthread_join,--wrap=pthread_mutex_init,--wrap=pthread_mutex_destroy,--wrap=pthread_mutex_lock,--wrap=pthread_mutex_unlock,--wrap=malloc,--wrap=calloc,--wrap=realloc,--wrap=free,--wrap=exit"
+WRAPS="-Wl,--wrap=pthread_create,--wrap=pthread_join,--wrap=pthread_exit,--wrap=pthread_mutex_init,--wrap=pthread_mutex_destroy,--wrap=pthread_mutex_lock,--wrap=pthread_mutex_unlock,--wrap=malloc,--wrap=calloc,--wrap=realloc,--wrap=free,--wrap=exit"
 g++ $LDF -rdynamic -o $BD/simfact $BD/h/*.o $BD/libslu.a $EXTRALIB $WRAPS -lpthread -ldl -lm >&2
 if [ -x $FINAL/simfact ]; then rm -rf $BD; else mkdir -p $(dirname $FINAL); mv $BD $FINAL 2>/dev/null || rm -rf $BD; fi
 echo $FINAL
